@@ -333,7 +333,57 @@ MUTANTS = [
 
 FIXES = """## What the campaign changed in the checks
 
-(filled in after round 2)
+Round 1 ran the checks as they were at e0ce07f (plain quick tier, seed 0) on the 84 mutants of round 1: `C05` on every transport.py
+mutant, `C06` on the mutants whose statement-level effect is on the vocabulary (l01, s01, s11, a05, c01) and on the twelve mutants of
+the other algorithms' labelling sites.  For transport.py mutants `C06` is run on its TRSO sub-stream only (`VERIF_C06_SOURCES=trso`; the
+other four sub-streams never execute transport.py); it was NOT run on the transport.py mutants that break C05 only: their C06 outcome is by
+construction `silent` or `correspondence only` (three that were run - n01, n02, n03 - took 9-10 minutes each on the shared machine because a
+correspondence disagreement without oracle failure triggers the runner's thorough-tier search).
+
+* **C05, endless recursion made the check itself not finish** (l06, f02, s02, s04, s10: `timeout` after 900 s, i.e. NO `VIOLATION` line;
+  s03 took 307 s).  A change that makes TRSO recurse for ever costs seconds per case while the interpreter climbs to its default limit of
+  1 000 frames through `deepcopy`.  `c05.recursion_guard` (also used by `c06._trso_run`): inside the call the recursion limit is the
+  current depth + 250 (a run on a graph with <= 7 nodes nests a few dozen frames; the evidence tag `exception: RecursionError` shows
+  that the guard never fires on the unchanged tree); the RecursionError is reported like every other exception on valid input.
+* **C05, 'no estimand' although ID has one** (s14: `timeout` in the thorough search, only a correspondence disagreement; s15 and c14 were
+  caught only through domains that declare NO experiment).  New oracle clause (b'), from the second sentence of the property: when
+  experiments are declared, TRSO answers 'no estimand' and `identify_outcomes` returns an estimand, the property is violated under either
+  reading (no experiment usable -> the verdict must be ID's; one usable -> using it is an estimand).  Sound on the unchanged tree because
+  lines 1-4, 8-11 of TRSO are ID's lines and a failed line 6 falls through to them (0 of 40 000 cases over seeds 0-2).
+* **C05, the derived selection DIAGRAMS were never looked at** (d04 - every domain's diagram derived from the pooled surrogate outcomes -
+  was caught only by exact evaluation, 856 failing inputs, because `get_nodes_to_transport` itself is unchanged).  New clause (e2): on
+  every valid case `surrogate_to_transport` is called and every domain's diagram must be the graph plus exactly one parentless selection
+  node `T_v -> v` for the `v` the independent rule marks.  d01-d04 now fail with a message that names the domain and the expected set.
+* **C05, several domains passing line 6 together** (s13 was caught, 131 failing inputs, but only through the random stream): the
+  two-domain generator of C06 now also feeds C05 (`two_domain`, 500 cases: nested experiments sharing a variable of X, the same experiment
+  declared twice, disjoint experiments inside X; either insertion order) - 4 x as many failing inputs for s13, and s11 (line 6
+  re-entered inside a source domain) fails on 23 % of the stream.
+* **C05, a later line 6 after line 10 in the target domain** (c10 MISSED, silently: exit 0; 1 differing output in 6 000, 3 in 20 000 random
+  queries - a domain passes the separation test but yields nothing, then line 10, then the mutant re-enters line 6 with the carried
+  c-factor and raises NetworkXError).  The smallest witness is in the corpus (and therefore in the perturbation stream, ~180 relabelled /
+  perturbed variants per quick run).
+* Generator review of round 5 (coordinator's list), all appended AFTER the existing streams so that the cases of the old streams are
+  unchanged: `multi_domain` (350: three or four source domains - one domain per outcome with |Y| = 3 in three districts, a bow with
+  three domains of which one is usable, random ADMGs with 3-4 random domains), `nested_source` (250: every no-domain witness that reaches
+  line 10, plus a fresh experimental root X0 in X and one domain with Z = {X0}: line 10 twice INSIDE a source domain, the carried
+  branch of `trso_line10` and the pillow test on the second line 10; the reviewer's witness is in the corpus), `big_query` (60: 6-7
+  nodes, |X| <= 4, |Y| <= 4), 120 activations of a Fraction nested in a Fraction / Sum / Product, malformed kinds `keys_extra`,
+  `keys_renamed` (same size, different key), `outside_dom_any`; argument FORMS through harness/forms.py for every identify case (a
+  deterministic function of the case): insertion order of the domain keys independently in `surrogate_outcomes` and
+  `surrogate_interventions` (ascending / descending / rotated), the target graph through every public constructor / insertion order.
+  NOT added: `frozenset` for X / Y / dictionary values (the signature says `set[Variable]`; `trso_line2` / `trso_line3` update the sets of a
+  deepcopy in place, so a frozenset raises AttributeError - 2 837 of 13 746 cases when it was tried; reported, not judged), a source domain
+  keyed by `TARGET_DOMAIN` (no documented behaviour to judge against), bare `Variable` arguments of `get_nodes_to_transport`.
+  Z_i meeting W_i (seed C05d = mutant s09) occurs in about a quarter of the valid cases (reviewer's count: 2 600 of 9 712).
+
+Initial guesses revised after analysis (the `why` column has the argument): f03 and c08 are *equivalent* (line 4 cannot fire inside a source
+domain; interventions outside the graph are inert after line 10), c11 is *outside the property* (the pillow guard only refuses; the three
+outputs it changes in 20 000 queries are all correct estimands), a10 changes only direct calls of the helper, m05 (guessed equivalent) and
+s14 (guessed incompleteness only) *break* C05, v02 and v03 cannot return an estimand at all (Sum refuses counterfactual ranges with a
+TypeError) and were replaced by v12.
+
+No mutant revealed a defect of the unchanged y0.  Observed and not judged: `identify_target_outcomes` with frozenset arguments raises
+AttributeError (outside the documented signature).
 """.split("\n")
 
 # ---------------------------------------------------------------------------------------------------- running
@@ -642,6 +692,7 @@ def main():
     ap.add_argument("--baseline-subset", default=None, metavar="REPO", help=argparse.SUPPRESS)
     ap.add_argument("--full-c06", action="store_true", help="group trso: run the whole registered C06 check (default: only its TRSO sub-stream, "
                     "VERIF_C06_SOURCES=trso; the other four sub-streams never execute transport.py)")
+    ap.add_argument("--fill-from", default=None, metavar="RESULTS", help="--render: take (mutant, check) pairs missing in --json from RESULTS")
     ap.add_argument("--render", action="store_true", help="only rewrite --md from the results in --json (and --before, suite file)")
     ap.add_argument("--suite", default=None, metavar="FILE",
                     help="instead of the checks run the pinned test suite (tools/baseline.py) on each selected mutant; results merged into FILE")
@@ -657,6 +708,18 @@ def main():
     sel = [m for m in MUTANTS if (not args.group or m["group"] == args.group) and (not args.id or m["id"] in args.id.split(","))]
     if args.render:
         results = json.loads(Path(args.json).read_text())["results"]
+        if args.fill_from:      # (mutant, check) pairs that the last run did not repeat: keep the earlier run, marked
+            have = {(r["id"], run["prop"]) for r in results for run in r.get("runs", [])}
+            byid = {r["id"]: r for r in results}
+            for r in json.loads(Path(args.fill_from).read_text())["results"]:
+                for run in r.get("runs", []):
+                    if (r["id"], run["prop"]) not in have:
+                        run = dict(run, says=("[round-1 run, not repeated] " + (run.get("says") or ""))[:220])
+                        byid.setdefault(r["id"], dict(r, runs=[]))["runs"].append(run)
+                        if byid[r["id"]] not in results:
+                            results.append(byid[r["id"]])
+            order = {m["id"]: i for i, m in enumerate(MUTANTS)}
+            results.sort(key=lambda r: order.get(r["id"], 1 << 30))
         cur = {m["id"]: m for m in MUTANTS}
         for r in results:
             if r["id"] in cur:
